@@ -171,6 +171,8 @@ func (s *Sim) apply(st Step) bool {
 		return s.stepMkRev(st)
 	case "podrm", "podlabel", "podorphan", "podown":
 		return s.stepPodEdit(st)
+	case "pvcterm":
+		return s.stepPVCTerm(st)
 	case "kube":
 		return s.stepKubelet(st)
 	case "gc":
@@ -846,7 +848,7 @@ func (s *Sim) stepMkPod(st Step) bool {
 	case 2:
 		rev = c.Name + "-dangling"
 	}
-	p := ModelPod(base, &tmpl, int32(abs(st.B)%10), rev)
+	p := ModelPod(base, &tmpl, int32(abs(st.B)%14), rev)
 	if (bits>>9)&1 == 1 {
 		// a pod somebody built without the per-ordinal claim volumes (storage repair path)
 		var keep []v1.Volume
@@ -1054,6 +1056,24 @@ func (s *Sim) stepKubelet(st Step) bool {
 		setPodPhase(o, phase)
 		return canonJSON(o.Status)+o.Spec.NodeName != before
 	})
+}
+
+// pvcterm: a user deletes a claim that is still protected (a pod uses it, or did
+// a moment ago): it keeps existing, with a deletion timestamp, for as long as the
+// protection finalizer stays. The controller never deletes or rewrites claims,
+// and a claim that exists is not created again.
+func (s *Sim) stepPVCTerm(st Step) bool {
+	keys := s.Store.Keys(KPVC)
+	if len(keys) == 0 {
+		return false
+	}
+	o := s.Store.tables[KPVC][keys[abs(st.A)%len(keys)]].(*v1.PersistentVolumeClaim)
+	if o.DeletionTimestamp != nil {
+		return false
+	}
+	s.count("user.pvcterm")
+	s.Store.markDeleting(KPVC, key(o.Namespace, o.Name), o, []string{"kubernetes.io/pvc-protection"})
+	return true
 }
 
 // ---- garbage collector -------------------------------------------------------------
